@@ -1,5 +1,6 @@
-"""C15 (batching), engine K part: totality of the batch entry points on the lengths of their arguments.
-Harness crate /verif/engines/kani/kmain (src/h_batch.rs, src/h_transcript.rs)."""
+"""C15 (batching), engine K part: totality of the batch entry points on the lengths of their arguments, and the fold of
+batch_verify (weights of the members in the checked combination).
+Harness crate /verif/engines/kani/kmain (src/h_batch.rs, src/h_transcript.rs, src/h_batch_fold.rs)."""
 from vf import core, kani
 
 CRATE = "engines/kani/kmain"
@@ -19,13 +20,65 @@ SPECS = [
       "guard-batch_verify:length-mismatch", est=8, min_covers=2),
 ]
 
+# --- the fold of batch_verify (h_batch_fold.rs, builder K3; notes/K3.md) -----------------------------------
+FOLD_FLAGS = ["-Z", "unstable-options", "--no-assertion-reach-checks"]   # reach checks only refine SUCCESS into UNREACHABLE; each costs a JSON trace (measured 215 s -> 61 s at n = 3)
+FOLD_STUBS = ["midnight_proofs::plonk::prepare (Ok(guard_i) carrying ghost weights e_i; marks the per-proof transcript with i)",
+              "transcript hash FH (records absorbed member summaries; batching challenge = 4 symbolic limbs)",
+              "DualMSM::scale (asserts s == the challenge bit for bit; weights *= X)", "DualMSM::add_msm (weights and consumption counts added; g moved in)",
+              "DualMSM::check (FINAL STEP: asserts the weight statement; answers nondeterministically)"]
+FOLD_FUNCS = [f"{ZL}::batch_verify", "proofs/src/transcript/mod.rs::CircuitTranscript::{init, init_from_bytes, squeeze_challenge, common, assert_empty}",
+              "proofs/src/poly/kzg/msm.rs::<DualMSM as Guard>::verify"]
+FOLD_SCENARIO = ["batch-fold-attack", "4"]
+
+
+def _fold(n, tiers=("quick", "thorough"), est=30):
+    return H(f"h_batch_fold::batch_fold_n{n}", f"C15.K.batch_verify.fold.n{n}",
+             f"the REAL batch_verify loop on a batch of {n}: at the final check every member's weight is a monomial X^k (X = the one batching challenge, coefficient 1), "
+             "the exponents are pairwise distinct, every guard was folded in exactly once; scale is only ever called with the value the batching transcript handed out; "
+             "that challenge was squeezed after all member summaries were absorbed; the final check runs exactly once and batch_verify is Ok iff it says yes",
+             FOLD_FUNCS, f"n = {n} members (constant of the harness); challenge = 4 symbolic u64 limbs; answer of the final check symbolic; keys opaque (nb_public_inputs = 0), proofs empty",
+             "batch_verify:fold-weights", est=est, min_covers=2, flags=FOLD_FLAGS, stubs=FOLD_STUBS, tiers=tiers,
+             timeout={"quick": 300, "thorough": 900}, oracle_scenario=FOLD_SCENARIO)
+
+
+def _fold_err(at, tiers=("quick", "thorough")):
+    return H(f"h_batch_fold::batch_fold_member_err_n3_at{at}", f"C15.K.batch_verify.fold.member_err.at{at}",
+             f"the REAL batch_verify on a batch of 3 whose member {at} fails its preparation (prepare answers Err): the batch is rejected, whatever the other members and the final check say",
+             FOLD_FUNCS, f"n = 3, failing member = {at} (constants of the harness: a symbolic position exhausts 12 GB, io::Error drop glue); challenge and final-check answer symbolic",
+             "batch_verify:member-prepare-error", est=80, min_covers=1, flags=FOLD_FLAGS, stubs=FOLD_STUBS, tiers=tiers,
+             timeout={"quick": 300, "thorough": 900}, oracle_scenario=FOLD_SCENARIO)
+
+
+SPECS += [_fold(1, est=12), _fold(2, est=15), _fold(3, est=60), _fold(4, tiers=("thorough",), est=60),
+          _fold_err(2), _fold_err(0, tiers=("thorough",))]
+
 
 def check(run):
-    run.bounds.append("K/C15: slice / iterator lengths in {0,1,2}")
+    run.bounds.append("K/C15: slice / iterator lengths in {0,1,2} (totality harnesses)")
     run.assumptions.append("K/C15: batch_verify harness: `prepare` answers Ok(empty guard)/Err nondeterministically, the pairing check answers nondeterministically, DualMSM::scale/add_msm are no-ops (rayon makes the Kani compiler panic), CBMC pointer checks off (Rust panics, bounds and overflow checks stay on)")
+    run.bounds.append("K/C15 fold: batch sizes n = 1, 2, 3 (quick), 4 (thorough); weights are exact polynomials in the formal challenge X with 7 coefficient slots of 7 bits (overflow is an assertion failure)")
+    run.assumptions += [
+        "K/C15 fold: the member guards are opaque (prepare is a stand-in answering Ok(guard_i) / Err for a fixed member); DualMSM::scale/add_msm are replaced by exact weight bookkeeping "
+        "(their real bodies, linear maps on the scalar vectors, are engine S's obligation C15.S.*); the final pairing check answers nondeterministically",
+        "K/C15 fold: distinct powers of ONE challenge that binds every member suffice for soundness of the random linear combination (Schwartz-Zippel over the 255-bit scalar field; not decided here); "
+        "the particular order X^(n-1), .., X, 1 is NOT demanded (the repository does not document one)",
+        "K/C15 fold: a FAILED fold harness is concretised by the native scenario `batch-fold-attack` (real proofs, real batch_verify: all-honest batches of size 1..4 accepted, every batch with one shifted proof "
+        "or with a +D/-D pair rejected); a deviation that is harmless for soundness (e.g. other distinct powers with a non-monomial bookkeeping) does not reproduce there and is reported INCONCLUSIVE, not VIOLATION",
+    ]
     run.outside += [
-        "K/C15: batch_verify with one or two keys (h_batch::batch_verify_one_key / two_keys are in the crate; measured: symex 220 s then the SAT back end exceeds 12 GB): the claim is decided for vks.len() = 0 only; the length guard for non-empty batches is 3 lines above the panic site and was read, not decided",
-        "K/C15: accept-iff-all-valid (cryptographic / engine S), accumulators",
+        "K/C15: length totality with one or two keys AND nondeterministic prepare answers (h_batch::batch_verify_one_key / two_keys; measured: symex 220 s then the SAT back end exceeds 12 GB); "
+        "with prepare answering Ok for every member (fold harnesses) or Err for one fixed member the function is decided for n = 1..4",
+        "K/C15 fold: which (vk_i, pi_i, proof_i) triple reaches prepare for member i is identified by the KEY pointer only (public inputs and proofs are empty vectors in the harness: a zip that pairs key i with proof j is not seen); "
+        "public-input-count guard inside the batch: keys are all-zero so only nb_public_inputs = 0 = pi.len() is exercised (the mismatch branch is decided by C03.K.verify.nb_public_inputs for `verify`, not for the batch closure)",
+        "K/C15 fold: batch sizes above 4; symbolic position of a failing member; committed instances (batch_verify does not support them)",
+        "K/C15 accumulators (circuits/src/verifier/accumulator.rs + msm.rs; used by aggregator/src/light_aggregator.rs, zk_stdlib/examples/ivc.rs and the in-circuit verifier gadget): NOT covered by engine K. "
+        "Accumulator::accumulate: r = HashCPU::hash (Poseidon, a trait method) of every member's public-input encoding, weights r^i by ff::Field::pow (blst FFI), fold `accs.iter().zip(rs).skip(1)` of Msm::accumulate_with_r "
+        "(scalars * r^i, BTreeMap-keyed fixed-base scalars added per key); it is generic over S: SelfEmulation (a full instance is needed: engine, sponge chip, curve chips) and the challenge and its powers come out of trait methods, "
+        "which Kani 0.68 cannot stub, so the weight bookkeeping of the fold harnesses does not reach it cheaply (a stand-in would replace exactly the arithmetic that matters). "
+        "Accumulator::collapse / Msm::collapse (MSM evaluation), Accumulator::check (two pairings), Accumulator::from_dual_msm (label-driven split: Fixed/Permutation/`-G` terms go to a BTreeMap with `insert`, "
+        "so it is correct only for a guard in which every such label occurs once, i.e. the output of ONE prepare, which is how all three callers use it; read, not decided), "
+        "AssignedAccumulator::{accumulate, collapse, scale_by_bit} (in-circuit) are likewise outside K; see C15_S / C20 for what engine S executes generically",
+        "K/C15: accept-iff-all-valid at the cryptographic level (pairing, KZG soundness)",
     ]
     kani.run_harnesses(run, CRATE, SPECS, jobs=6)
 
